@@ -40,6 +40,7 @@ inductive Label
   | looptest (b : Bool) | popped (x : Option Item) | newtimer (k : Nat)
   | extend (batch : List Nat) (ok : Bool) | requeue | pstop | sinkmarker
   | tau | tauLazy
+  | ntest (b : Bool)                          -- :525 the truth test of `next_push` (made only when the buffer is below the batch size)
   deriving DecidableEq, Repr
 
 structure State where
@@ -112,7 +113,8 @@ def step (s : State) : Option (State × Label) :=
   | .requeue => some ({ s with q := .marker :: s.q, pc := .second }, .requeue)
   | .setStop => some ({ s with pstop := true, pc := .final }, if s.pstop then .tau else .pstop)
   | .second =>
-    some ({ s with pc := if s.batch ≤ s.buffer.length ∨ s.fired s.cur = true then (if s.buffer = [] then .newT else .flush2) else .loop }, .tau)
+    some ({ s with pc := if s.batch ≤ s.buffer.length ∨ s.fired s.cur = true then (if s.buffer = [] then .newT else .flush2) else .loop },
+          if s.batch ≤ s.buffer.length then .tau else .ntest (s.fired s.cur))
   | .flush2 =>
     if nextOk s then some ({ s with sink := s.sink ++ [s.buffer], buffer := [], fails := s.fails.tail, pc := .newT }, .extend s.buffer true)
     else some ({ s with fails := s.fails.tail, pc := .loop }, .extend s.buffer false)
